@@ -67,9 +67,33 @@ for d in sorted(glob.glob(os.path.join(V, 'seeded', 'C*'))):
         pass
     vl = m.get('violation_line', '')
     status = ('exit 1' + (' (no-failing-input-found)' if 'no-failing-input-found' in vl else ', concrete replay')) if m.get('detected') else f"exit {m.get('quick_check_exit')} — MISSED"
-    if not m.get('confirmed'):
+    if m.get('obsolete'):
+        status = 'exit 0 — rightly quiet: the change no longer breaks the property on the current /repo (see meta.json confirmed_note)'
+    elif not m.get('confirmed') or str(m.get('confirmed')) == 'False':
         status += ' [not confirmed]'
     out.append(f"| {sid} | {str(m.get('summary', ''))[:220].replace('|', '/')} ({m.get('site', '')}) | {str(m.get('needs', ''))[:200].replace('|', '/')} | {status} | {how} | {hist.get(sid, 'caught by the first version of the check')} |")
+# benign
+bh = {}
+try:
+    bh = json.load(open(os.path.join(V, 'benign', '_history.json')))
+except Exception:
+    pass
+out += ["", "### 10.5b Harmless changes (round 6: written by independent sub-agents asked NOT to break the property) and what the checks say", "",
+        "Three per property: a behaviour-preserving refactor of the core code, a perf/robustness change with bit-identical "
+        "results, and an observable change the property does not forbid.  Each was confirmed here (`tools/benign.sh`): the patch "
+        "applies, its demonstration passes on both trees (same digest for the first two kinds), the repository's baseline tests pass.  "
+        "A check that exits 1 on one of these raises an alarm on code where the property holds; `history` says what was done about it.", "",
+        "| id | kind | what / where | observable difference | quick check now | history |", "|---|---|---|---|---|---|"]
+for d in sorted(glob.glob(os.path.join(V, 'benign', 'C*'))):
+    try:
+        m = json.load(open(os.path.join(d, 'meta.json')))
+    except Exception:
+        continue
+    bid = m.get('benign_id', os.path.basename(d))
+    vl = m.get('violation_line', '')
+    status = 'exit 0 (quiet)' if m.get('quiet') else ('exit ' + str(m.get('quick_check_exit')) + (' (no-failing-input-found)' if 'no-failing-input-found' in vl else ' ALARM'))
+    out.append(f"| {bid} | {m.get('kind', '')} | {str(m.get('summary', ''))[:260].replace('|', '/')} ({m.get('site', '')}) | "
+               f"{str(m.get('observable_difference', ''))[:160].replace('|', '/')} | {status} | {bh.get(bid, 'quiet with the checks as they were')} |")
 fa = os.path.join(V, 'design.d', '_false_alarms.md')
 if os.path.exists(fa):
     out += ["", open(fa).read()]
